@@ -56,6 +56,10 @@ PROBES = [
 ]
 BAD_MATHML = "<math><mi>x</mi>"
 EMPTY_LANG, EMPTY_CODE = "qq", "EmptyCode"
+DERIVED = ("DecimalSeparators", "BlockSeparators")
+# after the user's prefs.yaml changed, these follow the re-read (derived again / coupled to Language) whatever was set before
+EXEMPT_AFTER_FILE = DERIVED + ("LanguageAuto",)
+SETTLE = [("get_spoken_text",), ("get_braille", "")]      # getters re-read a changed prefs.yaml (unless CheckRuleFiles=None)
 
 
 class PrivateRules:
@@ -69,7 +73,7 @@ class PrivateRules:
         for old in os.listdir(base):                      # left behind by a killed run
             path = os.path.join(base, old)
             try:
-                if old.startswith("rules-") and time.time() - os.path.getmtime(path) > 3 * 3600:
+                if old.startswith(("rules-", "xdg-")) and time.time() - os.path.getmtime(path) > 3 * 3600:
                     shutil.rmtree(path, ignore_errors=True)
             except OSError:
                 pass
@@ -137,11 +141,14 @@ class Ctx:
         self.languages = d["languages"]
         self.styles = d["styles"]
         self.codes = d["codes"]
+        self.file_groups = d.get("file_groups", {})      # names that can be written into a user prefs.yaml -> their top-level group
+        self.safe_languages = d.get("safe_languages", ["en"])
         self.names = sorted(self.kinds)
 
     def to_dict(self):
         return {"kinds": self.kinds, "enums": self.enums, "role": self.role, "unknown": self.unknown,
-                "languages": self.languages, "styles": self.styles, "codes": self.codes}
+                "languages": self.languages, "styles": self.styles, "codes": self.codes, "file_groups": self.file_groups,
+                "safe_languages": self.safe_languages}
 
     def kind(self, name):
         return self.kinds.get(name)             # None = unknown name
@@ -211,7 +218,9 @@ def build_ctx():
                     langs.append(l + "-" + r)
     styles = sorted({s for l in configs.languages() for s in configs.styles(l)})
     ctx = Ctx({"kinds": kinds, "enums": {k: v for k, v in enums.items() if k in kinds}, "role": role, "unknown": unknown,
-               "languages": langs + [EMPTY_LANG, EMPTY_LANG + "-rr"], "styles": styles, "codes": configs.braille_codes() + [EMPTY_CODE]})
+               "languages": langs + [EMPTY_LANG, EMPTY_LANG + "-rr"], "styles": styles, "codes": configs.braille_codes() + [EMPTY_CODE],
+               "file_groups": {n: g[0] for n, g in groups.items() if n in kinds and n not in DERIVED},
+               "safe_languages": configs.languages()})
     return ctx, {"defaults_read_back_equal": defaults_equal, "defaults_read_back_different": defaults_diff,
                  "documented_names_unreadable": sorted(set(cand) - set(kinds))}
 
@@ -342,23 +351,67 @@ def history_names(history):
     return sorted({op[1] for op in history if op[0] == "set"})
 
 
+def user_prefs_yaml(values, ctx):
+    """text of a user prefs.yaml that gives the (flattened) names these values; booleans and numbers plain, text double-quoted"""
+    tree = {"Speech": {}, "Navigation": {}, "Braille": {}, "Other": {}}
+    for name, value in sorted(values.items()):
+        group = ctx.file_groups.get(name)
+        if group is None:
+            continue
+        node = tree[group]
+        parts = name.split("_")
+        for part in parts[:-1]:
+            node = node.setdefault(part, {})
+        node[parts[-1]] = value if ctx.kinds.get(name) in ("bool", "float") else json.dumps(value, ensure_ascii=False)
+
+    def emit(node, indent):
+        out = []
+        for k, v in node.items():
+            if isinstance(v, dict):
+                out.append("%s%s:" % (" " * indent, k))
+                out.extend(emit(v, indent + 2))
+            else:
+                out.append("%s%s: %s" % (" " * indent, k, v))
+        return out
+    lines = ["---"]
+    for group, node in tree.items():
+        if node:
+            lines.append("  %s:" % group)
+            lines.extend(emit(node, 4))
+        else:
+            lines.append("  %s: {}" % group)
+    return "\n".join(lines) + "\n"
+
+
 def compile_history(history, ctx, rules=None):
     """driver ops of one fresh session; returns (ops, names in the snapshot)"""
+    """returns (plan, names in the snapshot, layout): plan = list of ("ops", [driver ops]) and ("file", {name: value}) steps, the file steps
+    rewrite the user's prefs.yaml from Python between two batches of the same session; layout[i] = number of result slots of history[i]"""
     names = list(ctx.names) + [n for n in history_names(history) if n not in ctx.kinds]
     snap_p = [("get_preference", n) for n in names]
     cur = PROBES[0]
+    plan, layout = [], []
     ops = [("set_rules_dir", rules or core.RULES)] + snap_p + snap_o(cur)
     for op in history:
         if op[0] == "set":
             ops.append(("set_preference", op[1], op[2]))
+            layout.append(1)
         elif op[0] == "mathml":
             ops.append(("set_mathml", op[1]))
+            layout.append(1)
             if op[1] != BAD_MATHML:
                 cur = op[1]
+        elif op[0] == "userfile":
+            plan.append(("ops", ops))
+            plan.append(("file", op[1]))
+            ops = list(SETTLE)
+            layout.append(len(SETTLE))
         else:
             ops.append(tuple(op[1:]))
+            layout.append(1)
         ops += snap_p + snap_o(cur)
-    return ops, names
+    plan.append(("ops", ops))
+    return plan, names, layout
 
 
 def snap_o(xml):
@@ -381,39 +434,70 @@ class Runner:
         self.rules = rules
         self.d = None
         self.deaths = 0
+        self.sessions = 0
+        self.file_edits = 0
+        base = os.path.join(core.WORK, PROP)
+        os.makedirs(base, exist_ok=True)
+        # private user configuration directory: <xdg>/MathCAT/prefs.yaml is the user's preference file of every session of this runner
+        self.xdg = tempfile.mkdtemp(prefix="xdg-", dir=base)
+        os.makedirs(os.path.join(self.xdg, "MathCAT"))
+        self.user_file = os.path.join(self.xdg, "MathCAT", "prefs.yaml")
+
+    def write_user_file(self, values, ctx):
+        self.file_edits += 1
+        with open(self.user_file, "w", encoding="utf-8") as f:
+            f.write(user_prefs_yaml(values, ctx))
+        t = 1000000000 + 10 * self.file_edits            # explicit, strictly increasing time stamps: no dependence on clock granularity
+        os.utime(self.user_file, (t, t))
 
     def run(self, history, ctx):
-        """returns (op results, P snapshots, O snapshots) indexed 0 = initial, i+1 = after history[i]; None when the driver died"""
-        ops, names = compile_history(history, ctx, self.rules)
+        """returns (op results, P snapshots, O snapshots) indexed 0 = initial, i+1 = after history[i]; None when the driver died.
+        The history runs in a brand-new session (thread) of the driver; the user's prefs.yaml does not exist when it starts."""
+        plan, names, layout = compile_history(history, ctx, self.rules)
         if self.d is None or not self.d.alive():
             if self.d is not None:
                 self.d.close()
-            self.d = core.Driver("native", timeout=120)
+            self.d = core.Driver("native", env={"XDG_CONFIG_HOME": self.xdg}, timeout=120)
+        if os.path.exists(self.user_file):
+            os.remove(self.user_file)
+        self.sessions += 1
+        sess = "h%d" % self.sessions
+        res = []
         try:
-            res = self.d.fresh(ops, timeout=120)
+            for kind, x in plan:
+                if kind == "file":
+                    self.write_user_file(x, ctx)
+                else:
+                    res.extend(self.d.batch(x, s=sess, timeout=120))
+            self.d.raw({"op": "end_session", "s": sess})
         except (core.DriverDied, core.DriverTimeout) as e:
             self.deaths += 1
             self.last_failure = str(e)
-            self.close()
+            self.close_driver()
             return None
         if res[0]["r"] != "ok":
             raise core.Inconclusive("set_rules_dir failed: %s" % res[0])
         np_, pos = len(names), 1
-        results, ps, os_ = [None], [], []
+        results, ps, os_ = [], [], []
         for i in range(len(history) + 1):
             if i > 0:
-                results.append(res[pos])
-                pos += 1
+                n = layout[i - 1]
+                results.append(res[pos] if history[i - 1][0] != "userfile" else {"r": "ok", "v": None, "settle": [r["r"] for r in res[pos:pos + n]]})
+                pos += n
             ps.append({n: norm_res(r) for n, r in zip(names, res[pos:pos + np_])})
             pos += np_
             os_.append(tuple(norm_res(r) for r in res[pos:pos + 4]))
             pos += 4
-        return results[1:], ps, os_
+        return results, ps, os_
 
-    def close(self):
+    def close_driver(self):
         if self.d is not None:
             self.d.close()
             self.d = None
+
+    def close(self):
+        self.close_driver()
+        shutil.rmtree(self.xdg, ignore_errors=True)
 
 
 # --------------------------------------------------------------------------------------------
@@ -445,6 +529,20 @@ def judge(history, run, ctx, st=None):
     {kind, sub, index, detail}; judging stops at the first finding that changed the state (poisoned session)."""
     results, ps, os_ = run
     findings = []
+    api_set = set()          # names whose value was accepted through the API in this session: the files can no longer change them
+    file_versions = []       # contents of the user's prefs.yaml written so far
+
+    def explained(m, val):
+        """the user's prefs.yaml was rewritten: a preference that was never set through the API may take the value a version of the file gives
+        it (or, where the file does not name it, its value from the shipped files) whenever MathCAT reads the file again"""
+        if m in EXEMPT_AFTER_FILE:
+            return True
+        if m in api_set or val[0] != "ok" or ps[0].get(m, ("err",))[0] != "ok":
+            return False
+        return any(values_equal(ctx.kind(m) or "string", val[1], ver.get(m, ps[0][m][1])) for ver in file_versions)
+
+    def unexplained(names_changed, p2):
+        return [m for m in names_changed if not (file_versions and explained(m, p2[m]))]
 
     def add(kind, sub, i, detail, stop, outputs=None):
         # outputs: the finding rests ONLY on these recomputed outputs having changed (to be confirmed by a control run, see attributable())
@@ -466,12 +564,22 @@ def judge(history, run, ctx, st=None):
                 if st:
                     st.count("foreign_panic_in_" + (op[1] if op[0] == "get" else "set_mathml"))
                 break                                           # C08's business; the session may be poisoned
+            if op[0] == "userfile":
+                file_versions.append(dict(op[1]))
+                if st:
+                    st.count("user_prefs_file_rewritten")
+                    followed = [m for m in diff_p(p, p2) if m in op[1] and m not in api_set]
+                    pinned = [m for m in op[1] if m in api_set and m not in EXEMPT_AFTER_FILE and not values_equal(ctx.kind(m), p[m][1], op[1][m])]
+                    st.count("preferences_seen_following_the_rewritten_file", len(followed))
+                    st.count("api_set_preferences_contradicted_by_rewritten_file", len(pinned))
+                    for m in pinned:
+                        st.nontrivial.add(core.h16("file|%s|%s" % (m, op[1][m])))
             if st:
                 st.evaluations += 1
                 st.count("persistence_judgements")
-            changed = diff_p(p, p2)
+            changed = unexplained(diff_p(p, p2), p2)
             if changed:
-                what = "set_mathml" if op[0] == "mathml" else op[1]
+                what = "set_mathml" if op[0] == "mathml" else "rewriting the user's prefs.yaml" if op[0] == "userfile" else op[1]
                 add("not-persistent", "%s changed %s" % (what, ",".join(changed[:3])), i,
                     "%s changed preferences: %s" % (what, "; ".join("%s %r -> %r" % (n, p[n], p2[n]) for n in changed[:5])), True)
                 break
@@ -482,7 +590,7 @@ def judge(history, run, ctx, st=None):
         kind = ctx.kind(n)
         cls = vclass(kind, v)
         rej = must_reject(kind, v)
-        changed_p, changed_o = diff_p(p, p2), diff_o(o, o2)
+        changed_p, changed_o = unexplained(diff_p(p, p2), p2), diff_o(o, o2)
         if st:
             st.evaluations += 1
             st.count("set_preference_%s" % r["r"])
@@ -523,22 +631,30 @@ def judge(history, run, ctx, st=None):
             continue
         if st:
             st.count("accepted_sets_judged")
+            if n == "LanguageAuto":
+                st.count("accepted_LanguageAuto_sets")
+                if p.get("LanguageAuto") != p2.get("LanguageAuto") and api_set & {"Language"}:
+                    st.count("accepted_LanguageAuto_sets_after_Language_was_set")
         got = p2[n]
         if got[0] != "ok" or not values_equal(kind, got[1], v):
             add("readback", "%s/%s" % (kind, cls), i, "after Ok set_preference(%r, %r) get_preference returns %r" % (n, v[:80], got), True)
             break
+        api_set.add(n)
         # other preferences: unchanged, except the documented couplings
         ignore = {n}
         if n == "Language":
             ignore.add("LanguageAuto")                           # setting Language to Auto re-initialises LanguageAuto (documented in prefs.rs)
         if n in ("Language", "LanguageAuto", "DecimalSeparator"):
             ignore.update(("DecimalSeparators", "BlockSeparators"))     # derived from the decimal mark and the language in use
-        side = diff_p(p, p2, ignore)
+        side = unexplained(diff_p(p, p2, ignore), p2)
         if side:
             add("side-effect", "%s changed %s" % (n if n in SPECIAL else kind, ",".join(side[:3])), i,
                 "Ok set_preference(%r, %r) also changed: %s" % (n, v[:80], "; ".join("%s %r -> %r" % (m, p[m], p2[m]) for m in side[:5])), True)
             break
-        if n in ("Language", "LanguageAuto", "DecimalSeparator") and "DecimalSeparators" in p2 and "Language" in p2 and "DecimalSeparator" in p2:
+        if file_versions and n in ("Language", "LanguageAuto", "DecimalSeparator"):
+            if st:
+                st.count("separator_derivations_not_judged(after the user's prefs.yaml changed)")
+        elif n in ("Language", "LanguageAuto", "DecimalSeparator") and "DecimalSeparators" in p2 and "Language" in p2 and "DecimalSeparator" in p2:
             old = (p["DecimalSeparators"][1], p["BlockSeparators"][1])
             new = (p2["DecimalSeparators"][1], p2["BlockSeparators"][1])
             lang_now, dec_now = p2["Language"][1], p2["DecimalSeparator"][1]
@@ -623,6 +739,8 @@ def abstract_ops(history, ctx, abstracted_names):
             out.append("set(%s,%s)" % (label, vc))
         elif op[0] == "mathml":
             out.append("set_mathml")
+        elif op[0] == "userfile":
+            out.append("userfile(%s)" % ",".join(sorted({("%s@%d" % (ctx.kind(m), order[m])) if m in order else (ctx.kind(m) or "?") for m in op[1]})))
         else:
             out.append(op[1])
     return " ; ".join(out)
@@ -641,13 +759,15 @@ def minimise(runner, history, finding, ctx):
     prefix = history[:finding["index"]]
     kind = finding["kind"]
 
-    def fails(pre):
-        h = list(pre) + [last]
+    def fails_full(h):
         run = runner.run(h, ctx)
         if run is None:
             return None
         f = find_same(judge(h, run, ctx), kind, None, len(h) - 1)
         return f if f is not None and attributable(runner, h, f, ctx) else None
+
+    def fails(pre):
+        return fails_full(list(pre) + [last])
 
     if prefix:
         if fails([]):
@@ -655,6 +775,16 @@ def minimise(runner, history, finding, ctx):
         else:
             prefix = shrink.shrink_list(prefix, lambda pre: fails(pre) is not None, budget=60)
     h = list(prefix) + [last]
+    # a rewritten user file keeps only the names the finding needs
+    for i, op in enumerate(h):
+        if op[0] != "userfile":
+            continue
+        for m in sorted(op[1]):
+            if len(h[i][1]) > 1:
+                h2 = list(h)
+                h2[i] = ["userfile", {k: x for k, x in h[i][1].items() if k != m}]
+                if fails_full(h2) is not None:
+                    h = h2
     # normal form: replace every name by the representative of its kind and every value by the representative of its class, when the
     # finding survives; the names that could be replaced are rendered as kinds in the signature
     abstracted = set()
@@ -663,7 +793,8 @@ def minimise(runner, history, finding, ctx):
         rep = REPRESENTATIVE_NAME.get(k)
         if k is None or rep is None or (rep in history_names(h) and rep != n):
             continue
-        h2 = [[op[0], rep, op[2]] if op[0] == "set" and op[1] == n else op for op in h]
+        h2 = [[op[0], rep, op[2]] if op[0] == "set" and op[1] == n else
+              ["userfile", {(rep if m == n else m): x for m, x in op[1].items()}] if op[0] == "userfile" else op for op in h]
         run = runner.run(h2, ctx)
         if run is not None and find_same(judge(h2, run, ctx), kind, None, len(h2) - 1):
             h = h2
@@ -717,6 +848,8 @@ def gen_value(rng, ctx, name, kind):
     """value for set_preference(name): by the kind of the preference, or (1 in 4) from the hostile pool regardless of kind"""
     if rng.random() < 0.22:
         return rng.choice(HOSTILE)
+    if kind is not None and ctx.enums.get(name) and rng.random() < 0.09:
+        return ctx.enums[name][0]                        # the value the preference has by default (applications set what is in effect anyway)
     if kind is None:
         return rng.choice(["true", "false", "True", "1.5", "abc", "", "Auto", "Terse", "0", LONG, "☃"])
     if kind == "bool":
@@ -787,6 +920,36 @@ def confusion_value(rng, ctx, name, cls):
     return rng.choice(pool) if pool and rng.random() < 0.7 else rng.choice(["Xyz", "", "en", "Auto"])
 
 
+def file_value(rng, ctx, name):
+    """a VALID value for `name` as a user would write it into prefs.yaml (the file must always load)"""
+    kind = ctx.kinds[name]
+    if kind == "bool":
+        return rng.choice(["true", "false"])
+    if kind == "float":
+        return rng.choice(["50", "80", "100", "120", "150.5"])
+    if kind == "lang":
+        return rng.choice(ctx.safe_languages + ["Auto"])
+    if name == "SpeechStyle":
+        return rng.choice(ctx.styles)
+    if name == "BrailleCode":
+        return rng.choice([c for c in ctx.codes if c != EMPTY_CODE])
+    pool = [e for e in ctx.enums.get(name, []) if e]
+    return rng.choice(pool) if pool else None
+
+
+def gen_userfile(rng, ctx, h):
+    """the user edits prefs.yaml: mostly preferences the application has set before (those must keep the application's value)"""
+    earlier = [op[1] for op in h if op[0] == "set" and op[1] in ctx.file_groups]
+    eligible = sorted(ctx.file_groups)
+    values = {}
+    for _ in range(rng.randint(1, 4)):
+        name = rng.choice(earlier) if earlier and rng.random() < 0.7 else rng.choice(eligible)
+        v = file_value(rng, ctx, name)
+        if v is not None:
+            values[name] = v
+    return ["userfile", values]
+
+
 def gen_history(rng, ctx, length):
     h = []
     exprs = list(PROBES)
@@ -812,8 +975,22 @@ def gen_history(rng, ctx, length):
                 h.append(["set", name, gen_value(rng, ctx, name, ctx.kind(name))])
         elif x < 0.78:
             h.append(["mathml", BAD_MATHML if rng.random() < 0.08 else rng.choice(exprs)])
+        elif x < 0.83:
+            h.append(gen_userfile(rng, ctx, h))
         else:
             h.append(["get"] + list(rng.choice(GETTERS)))
+    # the documented protocol of LanguageAuto: a fixed language, back to Auto, then the application announces the document's language
+    # (LanguageAuto can only be set while Language=Auto, so random choice alone almost never gets an ACCEPTED set of it)
+    if "LanguageAuto" in ctx.kinds and rng.random() < 0.3:
+        steps = []
+        if rng.random() < 0.75:
+            steps.append(["set", "Language", rng.choice(ctx.safe_languages + ["fr", "de", "xx"])])
+        steps.append(["set", "Language", "Auto"])
+        for _ in range(rng.randint(1, 3)):
+            steps.append(["set", "LanguageAuto", rng.choice(ctx.safe_languages + ["fr", "de-ch", "xx", "en-US-nyc"])])
+        pos = sorted(rng.randint(0, len(h)) for _ in steps)
+        for k, (at, step) in enumerate(zip(pos, steps)):
+            h.insert(at + k, step)
     return h
 
 
@@ -823,7 +1000,7 @@ def precluster_key(history, f, ctx):
     op = history[f["index"]]
     sub = f["sub"] if f["kind"] in ("panic", "accepted-bad", "independence", "derived-separators") else ""
     if op[0] != "set":
-        return (f["kind"], sub, "set_mathml" if op[0] == "mathml" else "getter")
+        return (f["kind"], sub, "set_mathml" if op[0] == "mathml" else "userfile" if op[0] == "userfile" else "getter")
     kind = ctx.kind(op[1])
     prev_same = any(o[0] == "set" and o[1] == op[1] for o in history[:f["index"]])
     return (f["kind"], sub, op[1] if op[1] in SPECIAL else kind, vclass(kind, op[2]), prev_same)
@@ -940,8 +1117,13 @@ def run(tier, seed):
     extra["known_names_never_set"] = sorted(set(ctx.kinds) - set(names_set))
     need = 400 if quick else 1500
     if stats.counters.get("accepted_sets_judged", 0) < 200 or stats.counters.get("rejections_judged_with_snapshot", 0) < 100 \
-            or stats.counters.get("persistence_judgements", 0) < 200 or stats.counters.get("separator_derivations_judged", 0) < 20:
-        stats.notes.append("too few observations of one of: accepted sets, rejections, persistence judgements, separator derivations")
+            or stats.counters.get("persistence_judgements", 0) < 200 or stats.counters.get("separator_derivations_judged", 0) < 20 \
+            or stats.counters.get("api_set_preferences_contradicted_by_rewritten_file", 0) < 10 \
+            or stats.counters.get("preferences_seen_following_the_rewritten_file", 0) < 10 \
+            or stats.counters.get("accepted_LanguageAuto_sets", 0) < 5:
+        stats.notes.append("too few observations of one of: accepted sets, rejections, persistence judgements, separator derivations, "
+                           "API-set preferences contradicted by a rewritten user prefs.yaml, preferences following the rewritten file (= it was "
+                           "really read again), accepted sets of LanguageAuto")
         need = 10 ** 9
     return core.conclude(
         PROP, tier, seed, "exploration", stats, extra,
@@ -949,12 +1131,17 @@ def run(tier, seed):
          "a language tag is well formed when its first sub-tag is two ASCII letters and its region, if any, is 1-8 ASCII letters or digits; "
          "3-8 letter first sub-tags, inf/nan for numbers and boolean-looking words for text preferences may be answered either way",
          "an Err answer of set_preference must leave every preference and every output unchanged, whatever the reason of the error",
+         "after the user's prefs.yaml was rewritten, a preference that was accepted through the API before keeps the API's value; one that was never set "
+         "through the API may take the file's value at any later call; DecimalSeparators/BlockSeparators/LanguageAuto follow the re-read and the separator "
+         "derivation is not judged for the rest of that history",
          "independence is only judged for preferences of the Braille group of prefs.yaml (must not change MathML/speech/overview) and of the Speech group "
          "plus the documented speech-engine API preferences (must not change braille); get_navigation_node_from_braille_position is left to C20"],
         t0,
         rule="random histories (12-70 operations, each in a fresh session) of set_preference over every known name and made-up names x value classes "
              "(documented enumerators, unknown enumerator, wrong kind, empty, other case, padded, very long, Unicode, path-like), two-step type-confusion "
-             "sequences on one name, set_mathml (valid and invalid) and all getters; after every operation all preferences are read back and the four "
+             "sequences on one name, the LanguageAuto protocol (fixed language, back to Auto, LanguageAuto), set_mathml (valid and invalid), all getters, and "
+             "rewrites of the user's prefs.yaml (private XDG_CONFIG_HOME, strictly newer time stamp, mostly naming preferences the application has set); "
+             "after every operation all preferences are read back and the four "
              "outputs of the current expression are recomputed; non-trivial = a set_preference call judged against the model with the full snapshot; "
              "distinct by (name, value class or text value, result, same name as the previous call)",
         min_nontrivial=need, harness_errors=errors, known_replayed=known, fixed_failures=fixed_failures)
